@@ -12,7 +12,7 @@ Open Scope string_scope.
 Definition bs (l : list N) : string :=
   fold_right (fun n s => String (ascii_of_N n) s) EmptyString l.
 
-Inductive mode := MStream | MTxn | MHttp.
+Inductive mode := MStream | MTxn | MHttp | MProxy.
 
 Record tcase := {
   c_mode : mode;
@@ -21,11 +21,16 @@ Record tcase := {
   c_post : list token;        (* MHttp: tokens of the POSTed body *)
   c_post_eof : bool;
   c_ordered : bool;           (* MHttp: GET changes (posting order) vs GET entities (internal id order) *)
+  c_has2 : bool;              (* MHttp: a second POST was made (after a restart of the hub) before the GET *)
+  c_post2 : list token;
+  c_post2_eof : bool;
   (* observed on the implementation *)
   o_outcome : N;              (* 0 ok | 1 err | 2 panic | other *)
   o_groups : list (string * list ent);  (* MStream/MHttp: one group "" = emitted entities; MTxn: per dataset *)
   o_ns : nsmap;               (* parser namespace context when the outcome is ok *)
-  o_status : N                (* MHttp: 0 = 200 | 1 = 400 | 2 = 500 after a recovered panic | 3 = 500 sent by the handler *)
+  o_status : N;               (* MHttp: 0 = 200 | 1 = 400 | 2 = 500 after a recovered panic | 3 = 500 sent by the handler *)
+  o_status2 : N;              (* MHttp: status of the second POST *)
+  o_token : string            (* MProxy: continuation token returned by the page reader *)
 }.
 
 Definition out_code (o : outcome) : N :=
@@ -115,7 +120,8 @@ Definition obs_matches (c : tcase) (check_ns : bool) (p : N * list (string * lis
   && (if check_ns && N.eqb oc 0 then ns_eqb ns (o_ns c) else true).
 
 (** entities of a stream result that are not the continuation element *)
-Definition is_cont (e : ent) : bool := name_eqb (e_id e) (NRaw "@continuation").
+Definition is_cont_id (i : name) : bool := name_eqb i (NRaw "@continuation").
+Definition is_cont (e : ent) : bool := is_cont_id (e_id e).
 Definition payload (gs : list (string * list ent)) : list ent :=
   match gs with [(_, es)] => filter (fun e => negb (is_cont e)) es | _ => [] end.
 Definition has_qid (e : ent) : bool := match e_id e with NQ _ _ => true | _ => false end.
@@ -153,26 +159,57 @@ Definition same_ents (ordered : bool) (a b : list ent) : bool :=
   if ordered then leqb ent_eqb_norec a b
   else Nat.eqb (List.length a) (List.length b) && forallb (fun e => mem_ent e b) a.
 
-(** [need_get_ok]: after a 200 the GET response must itself parse (the hub reads what it wrote).
-    The pinned handler hands a posted continuation element - or an entity that kept the raw
-    "token" property - to the store like any entity; the stored JSON then carries the un-namespaced
-    property key "token" and the dataset's GET output no longer parses (F15d).  What was stored is
-    only observable through a GET that parses. *)
-Definition http_matches (need_get_ok : bool) (c : tcase) (post : N * list (string * list ent) * nsmap) : bool :=
+(** After a 200 the GET response must itself parse (the hub reads what it wrote) - also after
+    the hub was restarted in between.  One exception in the pinned tree (F15d): the handler hands
+    a posted continuation element - or an entity that kept the raw "token" property - to the store
+    like any entity; the stored JSON then carries the un-namespaced property key "token" and the
+    dataset's GET output no longer parses.  [lenient] = that exception is granted (non-strict
+    variants).  What was stored is only observable through a GET that parses. *)
+Fixpoint raw_keys (x : pval) : bool :=
+  match x with
+  | VArr l => existsb raw_keys l
+  | VEnt i _ _ ps _ =>
+    is_cont_id i
+    || (fix go (m : list (name * pval)) : bool :=
+          match m with
+          | [] => false
+          | (k, y) :: m' => (match k with NRaw _ => true | _ => false end) || raw_keys y || go m'
+          end) ps
+  | _ => false
+  end.
+Definition unreadable (es : list ent) : bool := existsb (fun e => raw_keys (val_of_ent e)) es.
+
+Definition http_matches (lenient : bool) (c : tcase)
+  (post : N * list (string * list ent) * nsmap) (post2 : N * list (string * list ent) * nsmap) : bool :=
   let '(oc, gs, _) := post in
   let es := all_emitted gs in
-  let '(st, stored) := flush (S (List.length es)) es oc in
-  N.eqb st (o_status c)
-  && (if need_get_ok && N.eqb st 0 then N.eqb (o_outcome c) 0 else true)
+  let '(st, stored1) := flush (S (List.length es)) es oc in
+  let '(oc2, gs2, _) := post2 in
+  let es2 := all_emitted gs2 in
+  let '(st2, stored2) := if c_has2 c then flush (S (List.length es2)) es2 oc2 else (0%N, []) in
+  let stored := (stored1 ++ stored2)%list in
+  N.eqb st (o_status c) && N.eqb st2 (o_status2 c)
+  && (if N.eqb st 0 && N.eqb st2 0 && negb (lenient && unreadable stored) then N.eqb (o_outcome c) 0 else true)
   && (if N.eqb (o_outcome c) 0 && comparable stored
       then same_ents (c_ordered c) stored (payload (o_groups c)) else true).
 
-Definition agree (v : variant) (c : tcase) : bool :=
+(** MProxy: the page reader of a proxy dataset over the remote hub's answer *)
+Definition res_code {A} (r : res A) : N := match r with Ok _ => 0 | Err => 1 | Panic => 2 | Fuel => 7 end%N.
+Definition proxy_matches (c : tcase) (p : res string * list ent) : bool :=
+  let '(r, passed) := p in
+  N.eqb (res_code r) (o_outcome c)
+  && leqb name_eqb (map e_id passed) (map e_id (all_emitted (o_groups c)))
+  && match r with Ok s => String.eqb s (o_token c) | _ => true end.
+
+(** [pc]: the proxy's token assertion is checked *)
+Definition agree (v : variant) (pc : bool) (c : tcase) : bool :=
   match c_mode c with
   | MStream => obs_matches c true (run_stream v (c_toks c) (c_eof c))
   | MTxn => obs_matches c false (run_txn v (c_toks c))
   | MHttp => obs_matches c false (run_stream v (c_toks c) (c_eof c))
-             && http_matches (strict v) c (run_stream v (c_post c) (c_post_eof c))
+             && http_matches (negb (strict v)) c (run_stream v (c_post c) (c_post_eof c))
+                                                   (run_stream v (c_post2 c) (c_post2_eof c))
+  | MProxy => proxy_matches c (proxy_page v pc (fuel_for (c_toks c)) (c_eof c) (c_toks c))
   end.
 
 (** the executable spec S on the implementation's own observation:
@@ -185,16 +222,22 @@ Definition spec_ok (c : tcase) : bool :=
   | MStream => obs_matches c true (run_spec (c_toks c) (c_eof c))
   | MTxn => obs_matches c false (run_txn fixed (c_toks c))
   | MHttp => obs_matches c false (run_spec (c_toks c) (c_eof c))
-             && http_matches true c (run_spec (c_post c) (c_post_eof c))
+             && http_matches false c (run_spec (c_post c) (c_post_eof c)) (run_spec (c_post2 c) (c_post2_eof c))
+  | MProxy => proxy_matches c (proxy_page fixed true (fuel_for (c_toks c)) (c_eof c) (c_toks c))
   end.
 
 Definition v_types : variant := {| chk_types := true; skip_unknown := false; strict := false |}.
 Definition v_types_unknown : variant := {| chk_types := true; skip_unknown := true; strict := false |}.
 
-(** [mismatches under current; under v_types; under v_types_unknown; under fixed; spec failures on I] *)
+(** mismatches under (parser variant, proxy token assertion unchecked / checked) in the order of
+    VARIANTS in lib/props/c15.py, then the spec failures on I *)
 Definition evaluate (cs : list tcase) : list (list N) :=
-  [ indices_where (fun c => negb (agree current c)) cs;
-    indices_where (fun c => negb (agree v_types c)) cs;
-    indices_where (fun c => negb (agree v_types_unknown c)) cs;
-    indices_where (fun c => negb (agree fixed c)) cs;
+  [ indices_where (fun c => negb (agree current false c)) cs;
+    indices_where (fun c => negb (agree current true c)) cs;
+    indices_where (fun c => negb (agree v_types false c)) cs;
+    indices_where (fun c => negb (agree v_types true c)) cs;
+    indices_where (fun c => negb (agree v_types_unknown false c)) cs;
+    indices_where (fun c => negb (agree v_types_unknown true c)) cs;
+    indices_where (fun c => negb (agree fixed false c)) cs;
+    indices_where (fun c => negb (agree fixed true c)) cs;
     indices_where (fun c => negb (spec_ok c)) cs ].
